@@ -417,8 +417,10 @@ def main():
     os.makedirs(os.path.dirname(OUT), exist_ok=True)
     old = open(OUT).read() if os.path.exists(OUT) else None
     if old != txt:
-        with open(OUT, "w") as f:
+        _tmp = OUT + ".tmp%d" % os.getpid()
+        with open(_tmp, "w") as f:
             f.write(txt)
+        os.replace(_tmp, OUT)  # atomic: a concurrent coqc never sees a partial file
     return {"lines": len(rows), "specs": len(srows), "max_label_len": mll, "xtb_cart_offset": xoff,
             "sha256": sha.hexdigest()[:16]}
 
